@@ -39,13 +39,13 @@ TStep ==
   /\ l <= Len(Trace) /\ div = NoDiv
   /\ LET ev == Trace[l] IN
      /\ Act(ev)
-     /\ LET exp  == Expected(cfg', ev, FALSE)
-            expA == Expected(cfg', ev, TRUE)
-            act  == Actual(cfg', ev)
-        IN /\ div' = IF act = exp \/ act = expA THEN NoDiv
-                     ELSE [at |-> l, tr |-> ev.tr, op |-> ev.op, expres |-> "see expected", actres |-> "see actual",
-                           exp |-> exp, act |-> act]
-           /\ dev' = IF act # exp /\ act = expA THEN dev \cup DevAt(ev) ELSE dev
+     /\ \E exp \in {Expected(cfg', ev, FALSE)}, act \in {Actual(cfg', ev)} :
+          IF act = exp THEN div' = NoDiv /\ dev' = dev
+          ELSE \E expA \in {Expected(cfg', ev, TRUE)} :
+                 /\ div' = IF act = expA THEN NoDiv
+                           ELSE [at |-> l, tr |-> ev.tr, op |-> ev.op, expres |-> "see expected", actres |-> "see actual",
+                                 exp |-> exp, act |-> act]
+                 /\ dev' = IF act = expA THEN dev \cup DevAt(ev) ELSE dev
   /\ l' = l + 1
 TSpec == TInit /\ [][TStep]_tvars
 
